@@ -5,11 +5,27 @@ histories of member assignments (direct, through a nested structure, through an 
 attributes).  Reference: a byte buffer maintained here — an assignment overwrites the member's bytes, everything else
 stays — from which every member is re-parsed with an independently loaded copy of its type.  The Lean model
 (`Union.parse` / `Union.assign`) is run on the same histories.
+
+Members and nested fields may be float16 / float / double (overlapping integer and byte members), and a member may be
+an array of structures; contents are random or sparse (bytes 00 / 80, so that float slots hold +0.0 / -0.0).  Besides the
+assignment of a random integer the histories contain
+  whole           a member (array, structure, array of structures, enum, char) is assigned a value parsed from fresh bytes;
+  float           a float member / nested float field is assigned 0.0, -0.0, 1.0, inf, a random representable value;
+  equal-encoding  a member is assigned a value that compares == to the value it holds but encodes differently
+                  (found by flipping one sign bit of the member's bytes: -0.0 over 0.0 and back, inside arrays and
+                  structures too; the integer 0 over -0.0), preferably right after an assignment to that member;
+  mutate-reassign `x = u.m; x[i] = v  (or x[i].field = v); u.m = x` on an array member: the member's own, mutated
+                  object is assigned back;
+  reassign-own    `u.m = u.m`.
+After every step every member must equal the parse of its type from the reference bytes and the dump must show the new
+bytes of the assigned member.  States in which a float slot holds a NaN pattern are checked member-wise only (Python
+floats do not preserve NaN payloads; NaNs are outside the domain as in C01/C02) and are not sent to the model.
 """
 from __future__ import annotations
 
 import io
 import itertools
+import struct as _struct
 
 from .. import common, defs, impl, refimpl
 from ..common import A, Case, Result, mkrng, parse_sexp, run_driver, sx
@@ -17,6 +33,7 @@ from ..structprops import union_dump_incomplete, has
 
 S = lambda n: ("sc", n)  # noqa: E731
 F = lambda n, t, b=None: {"name": n, "ty": t, "bits": b}  # noqa: E731
+PACK = {"float16": "e", "float": "f", "double": "d"}
 
 
 def gen_union(rnd, counter):
@@ -25,6 +42,8 @@ def gen_union(rnd, counter):
         return f"m{counter[0]}"
 
     def scalar():
+        if rnd.random() < 0.22:
+            return S(rnd.choice(["float", "float", "double", "float16"]))
         return S(rnd.choice(["uint8", "int8", "uint16", "int16", "uint32", "int32", "uint64", "uint24", "int48", "char"]))
 
     def struct(depth):
@@ -46,23 +65,33 @@ def gen_union(rnd, counter):
         r = rnd.random()
         if r < 0.35:
             members.append(F(nm(), scalar()))
-        elif r < 0.55:
+        elif r < 0.52:
             members.append(F(nm(), ("arr", scalar(), ("fixed", rnd.randint(1, 4)))))
-        elif r < 0.8:
+        elif r < 0.62:
+            members.append(F(nm(), ("arr", ("struct", struct(0)), ("fixed", rnd.randint(1, 3)))))
+        elif r < 0.82:
             members.append(F(nm(), ("struct", struct(1))))
-        elif r < 0.9:
+        elif r < 0.91:
             members.append(F(None, ("struct", struct(0))))
         else:
             members.append(F(nm(), ("enum", rnd.choice(["E8", "F16", "E32"]))))
     return ("union", members)
 
 
+def is_int(ty):
+    return ty[0] == "sc" and refimpl.sc(ty[1])[0] == "int"
+
+
+def is_flt(ty):
+    return ty[0] == "sc" and refimpl.sc(ty[1])[0] == "flt"
+
+
 def leaf_paths(ty, T, prefix=()):
-    """assignable integer leaves: (path of attribute names, type tree)"""
+    """assignable integer and float leaves: (path of attribute names, type tree)"""
     out = []
     if ty[0] == "struct":
         for f, rf in zip(ty[1], T.__fields__):
-            if f["ty"][0] == "sc" and refimpl.sc(f["ty"][1])[0] == "int":
+            if is_int(f["ty"]) or is_flt(f["ty"]):
                 out.append((prefix + (rf._name,), f["ty"]))
             elif f["ty"][0] == "struct" and f["name"] is not None:
                 out += leaf_paths(f["ty"], rf.type, prefix + (rf._name,))
@@ -76,12 +105,63 @@ def rand_int(rnd, ty):
     return rnd.choice([lo, hi, 0, 1, rnd.randint(lo, hi), rnd.randint(lo, hi)])
 
 
+def rand_float(rnd, ty):
+    """a value the float type represents exactly (never a NaN); zeros of both signs are frequent"""
+    _, size, _, _ = refimpl.sc(ty[1])
+    r = rnd.random()
+    if r < 0.5:
+        return rnd.choice([0.0, -0.0])
+    if r < 0.65:
+        return rnd.choice([1.0, -1.0, 0.5, 2.0, float("inf"), float("-inf")])
+    while True:
+        bits = rnd.getrandbits(8 * size)
+        if not impl.flt_is_nan(bits, size):
+            return _struct.unpack(">" + PACK[ty[1]], bits.to_bytes(size, "big"))[0]
+
+
+def rand_leaf(rnd, ty):
+    return rand_float(rnd, ty) if is_flt(ty) else rand_int(rnd, ty)
+
+
+def rand_bytes(rnd, n, sparse):
+    if sparse:
+        return bytes(rnd.choice((0, 0, 0, 0, 0x80)) for _ in range(n))
+    return bytes(rnd.randrange(256) for _ in range(n))
+
+
+def pyrepr(v):
+    if isinstance(v, float):
+        return f"float({str(float(v))!r})" if v in (float("inf"), float("-inf")) else repr(float(v))
+    return repr(v)
+
+
+def equal_but_different(mtype, cur, enc0):
+    """values w with `cur == w` whose encoding differs from the member's present bytes enc0: found by flipping the top bit
+    of one byte (the sign bit of a zero float, wherever it sits in the member) -> [(w, encoding)]"""
+    out = []
+    for j in range(len(enc0)):
+        e1 = bytearray(enc0)
+        e1[j] ^= 0x80
+        e1 = bytes(e1)
+        try:
+            w = mtype(e1)
+            if (cur == w) is True and mtype.dumps(w) == e1:
+                out.append((w, e1))
+        except Exception:  # noqa: BLE001
+            pass
+    return out
+
+
 def run(env) -> Result:
     res = Result()
-    res.rule = ("seeded random fixed-size unions of 2-4 members (ints of all widths, char, arrays, enums, named/anonymous/doubly nested "
-                "structs) x {<,>} x {packed, aligned}; random contents; histories of up to 5 assignments (whole member, field of a nested "
-                "struct at depth 1 and 2, forwarded field of an anonymous struct). After every step: each member == parse of its type from "
-                "the reference buffer (overwrite semantics), dumps == reference buffer up to bits that are padding in every member. "
+    res.rule = ("seeded random fixed-size unions of 2-4 members (ints of all widths, float16/float/double, char, arrays, arrays of structs, enums, "
+                "named/anonymous/doubly nested structs) x {<,>} x {packed, aligned}; random or sparse (00/80 bytes: signed zeros) contents; "
+                "histories of up to 6 assignments: whole member (random int / float incl. +-0.0 / value parsed from fresh bytes), field of a "
+                "nested struct at depth 1 and 2, forwarded field of an anonymous struct, a value == to the member's present value but "
+                "encoding differently (-0.0 over 0.0 and back, also inside arrays and structs; int 0 over -0.0), the member's own object "
+                "mutated in place and assigned back (x = u.arr; x[i].p = v; u.arr = x), u.m = u.m. After every step: each member == parse of "
+                "its type from the reference buffer (overwrite semantics), dumps == reference buffer up to bits that are padding in every "
+                "member (dump not compared while a float slot holds a NaN pattern). "
                 "distinct = (definition, config, contents, history prefix); non-trivial = history of >= 1 assignment")
     dc = impl.dc()
     rnd = mkrng(env["seed"], "c11")
@@ -98,21 +178,22 @@ def run(env) -> Result:
         if len(res.violations) < 50:
             res.violations.append(Case("property", what, data))
 
-    for _ in range(220 if tier == "quick" else 6000):
+    for _ in range(260 if tier == "quick" else 6000):
         utree = gen_union(rnd, counter)
         for endian, align in itertools.product("<>", (False, True)):
             if rnd.random() < 0.5:
                 continue
             tree = ("struct", [F("u", utree)])
+            compiled = rnd.random() < 0.5
             try:
-                L = impl.Loaded(tree, endian=endian, align=align, compiled=rnd.random() < 0.5)
+                L = impl.Loaded(tree, endian=endian, align=align, compiled=compiled)
             except Exception as e:  # noqa: BLE001
                 viol(f"union definition rejected: {type(e).__name__}: {e}", {"definition": defs.render_struct('T', tree)})
                 continue
             U = L.T.fields["u"].type
             cfg = refimpl.Cfg(endian, align, "uint64", impl.CONSTS)
             sigs = ["F9F10"] if union_dump_incomplete(utree, cfg) else []
-            cd0 = {"definition": L.text, "endian": endian, "align": align}
+            cd0 = {"definition": L.text, "endian": endian, "align": align, "compiled": compiled}
             # size = largest member (rounded up to the alignment in aligned mode)
             msizes = [rf.type.size for rf in U.__fields__]
             want_size = max(msizes)
@@ -120,7 +201,10 @@ def run(env) -> Result:
                 want_size = (want_size + U.alignment - 1) // U.alignment * U.alignment
             if U.size != want_size:
                 viol(f"union size {U.size}, largest member {max(msizes)} / alignment {U.alignment} give {want_size}", cd0)
-            data = bytes(rnd.randrange(256) for _ in range(U.size + 3))
+            sparse0 = rnd.random() < 0.3
+            data = rand_bytes(rnd, U.size + 3, sparse0)
+            if sparse0:
+                res.feat("contents:sparse (signed zeros)")
             st = io.BytesIO(data)
             try:
                 u = U(st)
@@ -131,6 +215,11 @@ def run(env) -> Result:
                 viol(f"parsing a union consumed {st.tell()} bytes, its size is {U.size}", dict(cd0, data=data.hex()))
             ref = bytearray(data[: U.size])
             res.feat("members:" + str(len(utree[1])))
+            if has(utree, lambda t, d, x: is_flt(t)):
+                res.feat("union-with-float-slot")
+            script = [f"from dissect.cstruct import cstruct; cs = cstruct(endian={endian!r}); cs.load({L.text!r}, compiled={compiled}, align={align})",
+                      f"U = cs.T.fields['u'].type; u = U(bytes.fromhex({data[: U.size].hex()!r}))"]
+            state = {"nan": False}
 
             def member_views():
                 """each member re-parsed from the reference buffer with its own type"""
@@ -142,14 +231,18 @@ def run(env) -> Result:
                         out.append(("err", type(e).__name__))
                 return out
 
+            def cdata(hist):
+                return dict(cd0, data=data.hex(), history=[str(h) for h in hist],
+                            repro="\n".join(script + ["print(u, u.dumps().hex())"]))
+
             def check(step, hist):
                 got = [impl.canon(getattr(u, rf._name)) for rf in U.__fields__]
                 want = member_views()
-                cd = dict(cd0, data=data.hex(), history=[str(h) for h in hist])
+                cd = cdata(hist)
                 res.count((L.text, endian, align, data, tuple(map(str, hist))), len(hist) >= 1)
                 for rf, g, w in zip(U.__fields__, got, want):
                     if not impl.same_val(w, g, ignore_union_buf=True):
-                        viol(f"after {step}: member {rf._name} is {str(g)[:160]}, its type parses the union's bytes to {str(w)[:160]}", cd, sigs)
+                        viol(f"after {step}: member {rf._name} is {str(g)[:160]}, its type parses the union's bytes {bytes(ref).hex()} to {str(w)[:160]}", cd, sigs)
                         return False
                 try:
                     d = u.dumps()
@@ -158,6 +251,11 @@ def run(env) -> Result:
                     return False
                 if len(d) != U.size:
                     viol(f"after {step}: dumps has {len(d)} bytes, the union has {U.size}", cd, sigs)
+                if any(impl.contains_nan(w) for w in want):
+                    # a NaN pattern in a float slot: Python floats do not keep the payload, the dump is outside the domain
+                    state["nan"] = True
+                    res.feat("dump-not-compared:NaN-pattern-in-a-float-slot")
+                    return True
                 # bits that are padding in every member may differ; everything else must be the reference bytes
                 allmask = bytearray(U.size)
                 for f in utree[1]:
@@ -176,56 +274,127 @@ def run(env) -> Result:
                 continue
             ops_model = []
             ok_model = True
-            for _step in range(rnd.randint(1, 5)):
-                k = rnd.randrange(len(utree[1]))
+            follow = None          # member assigned last: candidate for an equal-but-different-encoding follow-up
+            for _step in range(rnd.randint(1, 6)):
+                if follow is not None and rnd.random() < 0.45:
+                    k, want_eq = follow, True
+                else:
+                    k, want_eq = rnd.randrange(len(utree[1])), rnd.random() < 0.25
+                follow = None
                 f, rf = utree[1][k], U.__fields__[k]
-                ty = f["ty"]
+                ty, name, mtype = f["ty"], rf._name, rf.type
+                named = f["name"] is not None
+                msize = mtype.size
                 try:
-                    if ty[0] == "sc" and refimpl.sc(ty[1])[0] == "int":
-                        v = rand_int(rnd, ty)
-                        setattr(u, rf._name, v)
-                        enc = rf.type.dumps(v)
-                        hist.append((rf._name, v))
-                        ops_model.append([k, [A("int"), v]])
-                        res.feat("assign:scalar")
-                    elif ty[0] == "struct":
-                        leaves = leaf_paths(ty, rf.type)
+                    r = rnd.random()
+                    eqs = equal_but_different(mtype, getattr(u, name), bytes(ref[:msize])) if (want_eq and named) else []
+                    if want_eq and named and is_flt(ty) and bytes(ref[:msize]) != mtype.dumps(0) and getattr(u, name) == 0:
+                        eqs.append((0, mtype.dumps(0)))     # the integer 0 == -0.0
+                    if eqs:
+                        w, enc = rnd.choice(eqs)
+                        hist.append((name, "equal-encoding", pyrepr(w) if is_flt(ty) else str(w), enc.hex()))
+                        script.append(f"u.{name} = {pyrepr(w)}" if is_flt(ty) else
+                                      f"u.{name} = U.fields[{name!r}].type(bytes.fromhex({enc.hex()!r}))   # == the value u.{name} holds")
+                        setattr(u, name, w)
+                        res.feat("assign:equal-value-different-encoding")
+                    elif named and r < 0.12:
+                        # the member's own value is assigned back
+                        hist.append((name, "reassign-own"))
+                        script.append(f"u.{name} = u.{name}")
+                        setattr(u, name, getattr(u, name))
+                        enc = mtype.dumps(mtype(bytes(ref)))
+                        res.feat("assign:own-value")
+                    elif is_int(ty) or is_flt(ty):
+                        v = rand_leaf(rnd, ty)
+                        hist.append((name, pyrepr(v)))
+                        script.append(f"u.{name} = {pyrepr(v)}")
+                        setattr(u, name, v)
+                        enc = mtype.dumps(v)
+                        res.feat("assign:scalar" if is_int(ty) else "assign:float-scalar")
+                    elif named and ty[0] == "arr" and ty[1] != S("char") and r < 0.5:
+                        # the member's own list object, mutated in place, is assigned back
+                        ety = ty[1]
+                        cur = mtype(bytes(ref))
+                        i = rnd.randrange(len(cur))
+                        x = getattr(u, name)
+                        if is_int(ety) or is_flt(ety):
+                            path, v = (), rand_leaf(rnd, ety)
+                            x[i] = v
+                            cur[i] = v
+                        elif ety[0] == "struct" and leaf_paths(ety, mtype.type):
+                            path, lty = rnd.choice(leaf_paths(ety, mtype.type))
+                            v = rand_leaf(rnd, lty)
+                            for obj in (x[i], cur[i]):
+                                for p in path[:-1]:
+                                    obj = getattr(obj, p)
+                                setattr(obj, path[-1], v)
+                        else:
+                            continue
+                        at = f"x[{i}]" + "".join("." + p for p in path)
+                        hist.append((name, "mutate-reassign", at, pyrepr(v)))
+                        script.append(f"x = u.{name}; {at} = {pyrepr(v)}; u.{name} = x")
+                        setattr(u, name, x)
+                        enc = mtype.dumps(cur)
+                        res.feat("assign:own-object-mutated-in-place:" + ("array-of-structs" if path else "array-of-scalars"))
+                    elif ty[0] == "struct" and (not named or r < 0.7):
+                        leaves = leaf_paths(ty, mtype)
                         if not leaves:
                             continue
                         path, lty = rnd.choice(leaves)
-                        v = rand_int(rnd, lty)
+                        v = rand_leaf(rnd, lty)
                         # current member value, modified, is what the buffer must receive
-                        cur = rf.type(bytes(ref))
+                        cur = mtype(bytes(ref))
                         tgt = cur
                         for p in path[:-1]:
                             tgt = getattr(tgt, p)
                         setattr(tgt, path[-1], v)
                         enc = cur.dumps()
-                        if f["name"] is None and len(path) == 1:
+                        hist.append((name + "." + ".".join(path), pyrepr(v)))
+                        if not named and len(path) == 1:
+                            script.append(f"u.{path[0]} = {pyrepr(v)}")
                             setattr(u, path[0], v)       # forwarded attribute of the anonymous structure
                             res.feat("assign:anonymous-forwarded")
                         else:
-                            obj = getattr(u, rf._name)
+                            script.append(f"u.{name}.{'.'.join(path)} = {pyrepr(v)}")
+                            obj = getattr(u, name)
                             for p in path[:-1]:
                                 obj = getattr(obj, p)
                             setattr(obj, path[-1], v)
                             res.feat(f"assign:nested-depth{len(path)}")
-                        hist.append((rf._name + "." + ".".join(path), v))
-                        ops_model.append([k, impl.canon(cur)])
+                        if is_flt(lty):
+                            res.feat("assign:nested-float-field")
+                    elif named:
+                        # whole member from fresh bytes (array, structure, array of structures, enum, char)
+                        w = mtype(rand_bytes(rnd, msize, rnd.random() < 0.5))
+                        enc = mtype.dumps(w)
+                        hist.append((name, "whole", enc.hex()))
+                        script.append(f"u.{name} = U.fields[{name!r}].type(bytes.fromhex({enc.hex()!r}))")
+                        setattr(u, name, w)
+                        res.feat("assign:whole-" + ty[0] + ("-of-structs" if ty[0] == "arr" and ty[1][0] == "struct" else ""))
                     else:
                         continue
                 except Exception as e:  # noqa: BLE001
-                    viol(f"assignment {hist[-1] if hist else ''} to {rf._name} raises {type(e).__name__}: {e}", dict(cd0, data=data.hex(), history=[str(h) for h in hist]),
+                    viol(f"assignment {hist[-1] if hist else ''} to {name} raises {type(e).__name__}: {e}", cdata(hist),
                          sigs + (["F26"] if ty[0] == "struct" else []))
                     ok_model = False
                     break
                 ref[: len(enc)] = enc
+                cm = impl.canon(mtype(bytes(enc)))    # re-parsed: floats carry their width
+                if impl.contains_nan(cm):
+                    state["nan"] = True
+                ops_model.append([k, cm])
+                if named:
+                    follow = k
                 if not check(f"assigning {hist[-1]}", hist):
                     ok_model = False
                     break
-            if ok_model and not sigs and not has(utree, lambda t, d, x: t[0] == "ptr"):
+            if hist:
+                res.feat(f"history:length={len(hist)}")
+            if state["nan"]:
+                res.feat("model:not-sent (NaN pattern in a float slot)")
+            if ok_model and not sigs and not state["nan"] and not has(utree, lambda t, d, x: t[0] == "ptr"):
                 lines.append(sx([A("unionhist"), L.cfg_sexp(), impl.real_ty_sexp(utree, U, align), data, ops_model]))
-                metas.append((dict(cd0, data=data.hex(), history=[str(h) for h in hist]), bytes(u._buf), [impl.canon(getattr(u, rf._name)) for rf in U.__fields__], u.dumps()))
+                metas.append((cdata(hist), bytes(u._buf), [impl.canon(getattr(u, rf._name)) for rf in U.__fields__], u.dumps()))
     answers = run_driver(lines) if env["driver_ok"] else [None] * len(lines)
     for (cd, buf, vals, dump), ans in zip(metas, answers):
         if ans is None:
@@ -240,9 +409,22 @@ def run(env) -> Result:
             res.disagreements.append(Case("corr", f"union history: model ends in {ans[-300:]}, implementation has buf {buf.hex()} dump {dump.hex()}", cd))
     if metas:
         res.sample({"definition": metas[0][0]["definition"], "history": metas[0][0]["history"]})
+        for m in metas:
+            if any("equal-encoding" in h or "mutate-reassign" in h for h in m[0]["history"]):
+                res.sample({"definition": m[0]["definition"], "history": m[0]["history"]}, 3)
     return res
 
 
 def replay(body) -> int:
-    print("replay:", body.get("what"), body.get("case"))
+    c = body.get("case") or {}
+    print("replay:", body.get("what"))
+    if c.get("repro"):
+        impl.dc()
+        print("replay: running the recorded history on the library")
+        try:
+            exec(compile(c["repro"], "<replay>", "exec"), {})  # noqa: S102
+        except Exception as e:  # noqa: BLE001
+            print(f"replay: raises {type(e).__name__}: {e}")
+    else:
+        print("replay:", c)
     return 0
